@@ -487,7 +487,50 @@ def run(ctx):
             nviol += 1
     stats["disagreeing_histories"] = nviol
     ctx.corr("directory R~M~S", **stats)
+    run_full_tag(ctx, exe)
     run_bv(ctx, mod)
+
+
+def run_full_tag(ctx, exe):
+    """boundary scenario too large for the list-based model/spec drivers: one tag with refs 1..65534 in use, then
+    all 65535.  Judged directly by the property: a returned ref must be unused; 0 only when none is free."""
+    T = ctx.rng.choice(BASE_TAGS[:8])
+    k = ctx.rng.randrange(2, 65000)
+    h = ["open 16", "put %d 1 4" % T, "fill %d 2 65534 %d 1" % (T, T), "tagnewref %d" % T, "number %d" % T,
+         "dup %d 65535 %d 1" % (T, T), "tagnewref %d" % T, "newref", "del %d %d" % (T, k), "tagnewref %d" % T, "newref",
+         "del %d 65535" % T, "tagnewref %d" % T, "reopen", "number %d" % T, "tagnewref %d" % T]
+    (rl, crashed, tail), = run_R(ctx, exe, [h], "full")
+    used = set()
+    bad = None
+    if crashed:
+        bad = "harness crashed / sanitizer report\n" + tail
+    for line in ([] if crashed else rl):
+        opx, r = split(line)
+        w = opx.split()
+        if w[0] == "put" and r == "ok":
+            used.add(int(w[2]))
+        elif w[0] == "fill":
+            used.update(range(int(w[2]), int(w[3]) + 1))
+            if int(r) != int(w[3]) - int(w[2]) + 1:
+                bad = bad or "%s: %s descriptors created" % (opx, r)
+        elif w[0] == "dup" and r == "ok":
+            used.add(int(w[2]))
+        elif w[0] == "del" and r == "ok":
+            used.discard(int(w[2]))
+        elif w[0] == "number" and int(r) != len(used):
+            bad = bad or "%s: library %s, %d entries exist" % (opx, r, len(used))
+        elif w[0] in ("tagnewref", "newref"):
+            v = int(r)
+            free = len(used) < 65535
+            if (v == 0 and free) or (v != 0 and (v in used or not 1 <= v <= 65535)):
+                bad = bad or "%s returned %d (%s)" % (opx, v, "a reference is free" if v == 0 else "in use")
+    ctx.case(tuple(h), True, sample={"history": h, "library": rl})
+    ctx.corr("one tag with 65534/65535 references in use (library vs property directly)", operations=len(h),
+             refs_in_use_max=65535, ok=bad is None)
+    if bad:
+        ctx.violation("reference allocation at the 65535 boundary: " + bad.splitlines()[0],
+                      "# C12 replay (library only; too large for the model drivers)\n# " + bad.replace("\n", "\n# ") + "\n" +
+                      "\n".join(h) + "\n" + "\n".join("# R " + l for l in rl), found=True)
 
 
 # ------------------------------- bit-vector, driven directly -------------------------------------
@@ -557,10 +600,13 @@ def run_bv(ctx, mod):
             while z in bits:
                 z += 1
             if int(f[0]) != z:
+                # a set bit handed out = a reference in use handed out (property violated); a clear but not
+                # least bit only breaks the bit-vector theorem the freshness proof rests on
                 j = max(k for k in range(i + 1) if flat[k].startswith("new"))
                 ctx.violation("bv_find_next_zero returned %s, least clear bit is %d" % (f[0], z),
-                              "# C12 bit-vector replay (harness drive_bv)\n" + "\n".join(flat[j:i + 1]) + "\n# library: " + rl,
-                              found=True, suffix="bv")
+                              "# C12 bit-vector replay (harness drive_bv); bv_find_least_zero no longer describes the code\n" +
+                              "\n".join(flat[j:i + 1]) + "\n# library: " + rl,
+                              found=(int(f[0]) in bits or int(f[0]) < 0), suffix="bv")
                 return
         if prev_asz is not None and f[2] != prev_asz:
             stats["extensions"] += 1
@@ -593,6 +639,11 @@ def replay(ctx, path):
             print("%-14s R %-28s M %s%s" % (op, a, b, "" if a == b else "   <-- differs"))
         return 0
     exe = ctx.harness("drive_dd", ["drive_dd.c"])
+    if any(l.startswith("fill") for l in lines):
+        (rl, crashed, tail), = run_R(ctx, exe, [lines], "replay")
+        print("\n".join("R " + l for l in rl))
+        print(tail if crashed else "(library only: history too large for the model drivers)")
+        return 0
     v, rl, ml = check_one(ctx, exe, mod, lines, "replay")
     for a, b in zip(rl, ml + [""] * len(rl)):
         print("R %s | %s" % (a, b))
